@@ -314,6 +314,26 @@ func (w *World) doStart(t *Task) {
 			mb = mb.WithMatch(triggers.NewKeywordMatch(triggers.KeywordMatchTypeFirstWord, kw))
 		}
 		trig = mb.Build()
+	case t.Trigger == "campaign" && !voice:
+		trig = tb.Campaign(triggers.NewCampaignReference(triggers.CampaignUUID(gen.UUID(98, 1)), "Reminders"), triggers.CampaignEventUUID(gen.UUID(98, 2))).Build()
+	case t.Trigger == "channel" && len(w.Sc.Channels) > 0:
+		ch := w.Sc.Channels[0]
+		ref := assets.NewChannelReference(assets.ChannelUUID(ch.UUID), ch.Name)
+		if voice {
+			trig = tb.Channel(callCh, triggers.ChannelEventTypeIncomingCall).WithCall(callURN).Build()
+		} else {
+			cb := tb.Channel(ref, []triggers.ChannelEventType{triggers.ChannelEventTypeNewConversation, triggers.ChannelEventTypeReferral, triggers.ChannelEventTypeMissedCall}[w.T.Pick("channel_event", 3)])
+			if w.T.Chance("channel_params", 1, 2) {
+				p, _ := types.ReadXObject([]byte(`{"referrer_id":"ref-1","flag":true}`))
+				cb = cb.WithParams(p)
+			}
+			trig = cb.Build()
+		}
+	case t.Trigger == "optin" && !voice && len(w.Sc.OptIns) > 0 && sa.OptIns().Get(assets.OptInUUID(w.Sc.OptIns[0].UUID)) != nil:
+		oi := sa.OptIns().Get(assets.OptInUUID(w.Sc.OptIns[0].UUID))
+		trig = tb.OptIn(oi, []triggers.OptInEventType{triggers.OptInEventTypeStarted, triggers.OptInEventTypeStopped}[w.T.Pick("optin_event", 2)]).Build()
+	case t.Trigger == "ticket" && !voice && contact.Ticket() != nil:
+		trig = tb.Ticket(contact.Ticket(), triggers.TicketEventTypeClosed).Build()
 	default:
 		mb := tb.Manual()
 		if voice {
